@@ -31,8 +31,68 @@ def _layout_array(np, size, dtype, cflag, fflag, rng):
     return big[:, ::2], shape
 
 
+def replay_dunder(ob):
+    """element dunders on real spaces (rn, cn, uniform_discr, product space): value against plain NumPy arithmetic, operands untouched, no aliasing of the result"""
+    import operator
+    odl = _import_odl()
+    import numpy as np
+    info = ob.get('info') or {}
+    dunder, other, field = info.get('dunder'), info.get('other'), info.get('field', 'real')
+    name = dunder.strip('_')
+    inplace = name.startswith('i') and name not in ('invert',)
+    base = name[1:] if (inplace or name.startswith('r')) and hasattr(operator, name[1:]) and not hasattr(operator, name) or name in ('radd', 'rsub', 'rmul', 'rtruediv', 'iadd', 'isub', 'imul', 'itruediv') else name
+    refl = name.startswith('r') and name != base
+    op = getattr(operator, base, None)
+    if op is None or other not in ('self', 'elem', 'scalar', 'arraylike'):
+        return {'reproduced': False, 'detail': 'no native concretisation for this obligation kind'}
+    rng = np.random.default_rng(2)
+    spaces = [odl.rn(5), odl.uniform_discr(0, 1, 5)] if field == 'real' else [odl.cn(5)]
+    spaces.append(spaces[0] ** 2)
+    for sp in spaces:
+        def rand():
+            e = sp.element() if False else None
+            if isinstance(sp, odl.ProductSpace):
+                return sp.element([rng.uniform(0.5, 2.0, 5) for _ in range(len(sp))])
+            a = rng.uniform(0.5, 2.0, 5)
+            return sp.element(a + 1j * rng.uniform(0.5, 2.0, 5) if field == 'complex' else a)
+        x, y = rand(), rand()
+        xa = np.asarray(x).copy()
+        if other == 'self':
+            o, oa = x, xa
+        elif other == 'elem':
+            o, oa = y, np.asarray(y).copy()
+        elif other == 'scalar':
+            o = oa = 1.75
+        else:
+            o = np.asarray(y).copy()
+            oa = o.copy()
+        keep = o.copy() if other == 'arraylike' else None
+        try:
+            ret = getattr(x, dunder)(o)
+        except Exception as e:
+            return {'reproduced': 'no_raise' in ob.get('name', ''), 'detail': '%s raised %s: %s' % (dunder, type(e).__name__, e)}
+        if ret is NotImplemented:
+            continue
+        want = op(oa, xa) if refl else op(xa, oa)
+        if not np.allclose(np.asarray(ret), want):
+            return {'reproduced': True, 'detail': '%r.%s(%s): %r, expected %r' % (sp, dunder, other, np.asarray(ret), want)}
+        if other == 'arraylike':
+            if not np.array_equal(o, keep):
+                return {'reproduced': True, 'detail': 'x.%s(ndarray) on %r modified the caller\'s array: %r, was %r' % (dunder, sp, o, keep)}
+            if np.shares_memory(np.asarray(ret), o):
+                return {'reproduced': True, 'detail': 'the result of x.%s(ndarray) on %r shares memory with the caller\'s array' % (dunder, sp)}
+        if not inplace and other != 'self' and not np.array_equal(np.asarray(x), xa):
+            return {'reproduced': True, 'detail': 'x.%s(%s) modified x' % (dunder, other)}
+    return {'reproduced': False, 'detail': 'dunder agrees with NumPy arithmetic and leaves its operands alone on %d spaces' % len(spaces)}
+
+
 def replay(ob):
     rp = ob.get('replay') or {}
+    if ob.get('unit', '').startswith('elem/__') and (ob.get('info') or {}).get('dunder'):
+        try:
+            return replay_dunder(ob)
+        except Exception as e:
+            return {'reproduced': False, 'detail': 'replay harness error: %r' % (e,)}
     if rp.get('kind') not in ('lincomb_impl', 'tensor_binary'):
         return {'reproduced': False, 'detail': 'no native concretisation for this obligation kind'}
     odl = _import_odl()
